@@ -296,7 +296,7 @@ func (x *Exec) navCall(s *State, in *ssa.Call, recv Val, args []Val, m string) V
 	}
 	switch m {
 	case "NodeType":
-		r := x.fresh(s, "nodetype", x.intSort())
+		r := mk(x.intSort(), "nodetype_", pos)
 		if x.mode == "int" {
 			s.assume(Eq(r, kind))
 		} else {
@@ -317,7 +317,11 @@ func (x *Exec) navCall(s *State, in *ssa.Call, recv Val, args []Val, m string) V
 		arr2 := x.navPosArr(s)
 		x.heapSet(s, "navpos", Store(arr2, r, pos))
 		s.assume(mk(SBool, "impl", mk(SInt, "dyntag", recv.T), IntLit(int64(x.p.iface(x.p.lookupType("NodeNavigator"))))))
-		return scalar(x.define(s, "copy", res))
+		cp := x.define(s, "copy", res)
+		if len(s.frames) == 1 {
+			s.navCopies = append(s.navCopies, cp)
+		}
+		return scalar(cp)
 	case "MoveToRoot":
 		setPos(tf("rootof", SPos, pos))
 		return Val{K: vNone}
